@@ -138,7 +138,22 @@ func (h *probeHandler) Handle(resp tq.Response, req tq.Request) {
 			pc.w.Rec(world.Ev{Actor: "conn", Kind: "reply-result", Conn: pc.conn, A: -1, S: "harness: " + err.Error()})
 			continue
 		}
-		n, err := resp.Reply(v)
+		var n int
+		if st.ViaWrite {
+			// total control over the packet: mirrored header built by the handler itself,
+			// with a deliberately wrong length field
+			var body []byte
+			body, err = v.MarshalBinary()
+			if err == nil {
+				h := tq.NewHeader(tq.SetHeaderVersion(req.Header.Version), tq.SetHeaderType(req.Header.Type), tq.SetHeaderSeqNo(int(req.Header.SeqNo)+1),
+					tq.SetHeaderFlag(req.Header.Flags), tq.SetHeaderSessionID(req.Header.SessionID))
+				pk := tq.NewPacket(tq.SetPacketHeader(h), tq.SetPacketBody(body))
+				pk.Header.Length = st.WrongLen
+				n, err = resp.Write(pk)
+			}
+		} else {
+			n, err = resp.Reply(v)
+		}
 		s := ""
 		if err != nil {
 			s = err.Error()
